@@ -608,4 +608,90 @@ example : U128.WF ⟨1, 2⟩ ∧ U128.leftShift ⟨1, 2⟩ 3 = ⟨8, 16⟩ ∧ U
     U128.rightShift ⟨1, 2⟩ 1 = ⟨0, 9223372036854775809⟩ ∧ U128.rightShift ⟨1, 2⟩ 200 = ⟨0, 0⟩ :=
   ⟨by decide, rfl, rfl, rfl, rfl⟩
 
+/-! ## `log.Warnf` as an outcome component (`…Warns` = number of warnings a call logs)
+
+The narrowing casts log exactly one warning when the value does not fit the target width and none when it fits
+("A Warning will be logged if an overflow occurs"); `LeftShift64`/`RightShift64` warn exactly for `n ≥ 128`, hence
+`Uint64.LeftShift/RightShift` once and `Uint128.LeftShift/RightShift` twice for `n ≥ 128`, and `Uint256.LeftShift/
+RightShift` never.  The counts are compared with the warnings captured from logrus on every case line, and regenerated
+from the Go source (`Props/C20Gen.lean`, except for the loop methods of Uint256). -/
+
+theorem u128_toU64_warns_exact (u : U128) (hu : u.WF) :
+    (U128.toU64Warns u = 0 ↔ u.toNat < W) ∧ (U128.toU64Warns u = 1 ↔ W ≤ u.toNat) := by
+  obtain ⟨h1, h0⟩ := hu
+  unfold U128.toU64Warns U128.toNat
+  simp only [W] at h1 h0 ⊢
+  by_cases h : u.w1 = 0
+  · have hb : (u.w1 != 0) = false := by simp [h]
+    rw [hb, if_neg Bool.false_ne_true]; omega
+  · have hb : (u.w1 != 0) = true := by simp [h]
+    rw [hb, if_pos rfl]; omega
+
+theorem u256_toU64_warns_exact (u : U256) (hu : u.WF) :
+    (U256.toU64Warns u = 0 ↔ u.toNat < W) ∧ (U256.toU64Warns u = 1 ↔ W ≤ u.toNat) := by
+  obtain ⟨h3, h2, h1, h0⟩ := hu
+  unfold U256.toU64Warns U256.toNat
+  simp only [W] at h3 h2 h1 h0 ⊢
+  by_cases h : u.w3 = 0 ∧ u.w2 = 0 ∧ u.w1 = 0
+  · have hb : (u.w3 != 0 || u.w2 != 0 || u.w1 != 0) = false := by simp [h.1, h.2.1, h.2.2]
+    rw [hb, if_neg Bool.false_ne_true]; omega
+  · have hb : (u.w3 != 0 || u.w2 != 0 || u.w1 != 0) = true := by
+      simp only [Bool.or_eq_true, bne_iff_ne, ne_eq]; omega
+    rw [hb, if_pos rfl]; omega
+
+theorem u256_toU128_warns_exact (u : U256) (hu : u.WF) :
+    (U256.toU128Warns u = 0 ↔ u.toNat < W * W) ∧ (U256.toU128Warns u = 1 ↔ W * W ≤ u.toNat) := by
+  obtain ⟨h3, h2, h1, h0⟩ := hu
+  unfold U256.toU128Warns U256.toNat
+  simp only [W] at h3 h2 h1 h0 ⊢
+  by_cases h : u.w3 = 0 ∧ u.w2 = 0
+  · have hb : (u.w3 != 0 || u.w2 != 0) = false := by simp [h.1, h.2]
+    rw [hb, if_neg Bool.false_ne_true]; omega
+  · have hb : (u.w3 != 0 || u.w2 != 0) = true := by
+      simp only [Bool.or_eq_true, bne_iff_ne, ne_eq]; omega
+    rw [hb, if_pos rfl]; omega
+
+/-- the cast is silent AND value-preserving exactly when the value fits; otherwise it warns once and keeps the low
+limb(s) -/
+theorem narrowing_cast_outcome (u : U128) (hu : u.WF) :
+    (u.toNat < W → (U128.toU64 u).toNat = u.toNat ∧ U128.toU64Warns u = 0) ∧
+    (W ≤ u.toNat → (U128.toU64 u).toNat = u.toNat % W ∧ U128.toU64Warns u = 1) :=
+  ⟨fun h => ⟨(u128_toU64_exact u hu).2.2.1 h, (u128_toU64_warns_exact u hu).1.mpr h⟩,
+   fun h => ⟨(u128_toU64_exact u hu).2.1, (u128_toU64_warns_exact u hu).2.mpr h⟩⟩
+
+theorem shift64_warns_exact (n : Nat) :
+    (leftShift64Warns n = 0 ↔ n < 128) ∧ (leftShift64Warns n = 1 ↔ 128 ≤ n) ∧
+    (rightShift64Warns n = 0 ↔ n < 128) ∧ (rightShift64Warns n = 1 ↔ 128 ≤ n) := by
+  unfold leftShift64Warns rightShift64Warns
+  by_cases h : n < 128
+  · rw [if_pos h]; omega
+  · rw [if_neg h]; omega
+
+theorem u64_shift_warns_exact (u : U64) (n : Nat) :
+    U64.leftShiftWarns u n = (if n < 128 then 0 else 1) ∧ U64.rightShiftWarns u n = (if n < 128 then 0 else 1) :=
+  ⟨rfl, rfl⟩
+
+theorem u128_shift_warns_exact (u : U128) (n : Nat) :
+    U128.leftShiftWarns u n = (if n < 128 then 0 else 2) ∧ U128.rightShiftWarns u n = (if n < 128 then 0 else 2) := by
+  unfold U128.leftShiftWarns U128.rightShiftWarns leftShift64Warns rightShift64Warns
+  by_cases h : n < 128
+  · simp only [if_pos h]; exact ⟨trivial, trivial⟩
+  · simp only [if_neg h]; exact ⟨trivial, trivial⟩
+
+/-- `Uint256.LeftShift/RightShift` never warn: for `n < 256` the whole-limb loop leaves `n mod 64 < 128` -/
+theorem u256_shift_warns_exact (u : U256) (n : Nat) (hu : u.WF) :
+    U256.leftShiftWarns u n = 0 ∧ U256.rightShiftWarns u n = 0 := by
+  unfold U256.leftShiftWarns U256.rightShiftWarns
+  by_cases h : n ≥ 256
+  · simp only [h, if_true, and_self]
+  · have hn : n < 256 := by omega
+    have e1 := (U256.limbsLeft_spec u n hu hn).1
+    have e2 := (U256.limbsRight_spec u n hu hn).1
+    have l : leftShift64Warns (n % 64) = 0 := (shift64_warns_exact _).1.mpr (by omega)
+    have r : rightShift64Warns (n % 64) = 0 := (shift64_warns_exact _).2.2.1.mpr (by omega)
+    simp only [h, if_false, e1, e2, l, r, and_self]
+
+example : U128.WF ⟨1, 5⟩ ∧ U128.toU64Warns ⟨1, 5⟩ = 1 ∧ U128.toU64Warns ⟨0, 5⟩ = 0 ∧
+    U128.leftShiftWarns ⟨1, 5⟩ 128 = 2 ∧ U256.toU128Warns ⟨0, 1, 2, 3⟩ = 1 := ⟨by decide, rfl, rfl, rfl, rfl⟩
+
 end ObiVerif.Props.C20
